@@ -199,6 +199,52 @@ def run_case(case, res):
             s = make_system(s0)
             s.daemon.immediate = True
             return s
+        if case.get('paused'):
+            # ... or a refresh that passed its height check and fetched its transactions BEFORE
+            # the event, and whose index lookups (worker jobs) only run at slice point k
+            def make():         # noqa
+                s = make_system(s0)
+                s.daemon.immediate = True
+                x = evmaker()
+                x = x if isinstance(x, list) else [x]
+                # everything but the last event happens first, under the default schedule
+                late = case.get('late')     # a transaction that only arrives at the pause
+                for ev in [ev_mempool(s1), 'tick', 'tick'] + x[:-1]:
+                    if ev == 'tick':
+                        s.loop.fire_polling_timer()
+                    else:
+                        ev[1](s)
+                        if late:
+                            s.daemon.mempool.pop(u.txs[late].txid, None)
+                    s.run_idle()
+                if late:
+                    s.daemon.set_mempool(list(s.daemon.mempool.values()) + [u.txs[late]])
+                # start a refresh and stop it in front of its index lookups
+                for _ in range(6):
+                    s.loop.fire_polling_timer()
+                    for _n in range(20000):
+                        if any(getattr(j.func, '__name__', '').startswith('lookup_')
+                               for j in s.loop.pending_jobs()):
+                            break
+                        if s.step_default() is None:
+                            break
+                    held = [j for j in s.loop.pending_jobs()
+                            if getattr(j.func, '__name__', '').startswith('lookup_')]
+                    if held:
+                        break
+                if not held:
+                    res.count('paused_refresh_had_nothing_to_look_up')
+                for j in held:
+                    j.held = True
+                s.x_last_event = x[-1]
+                return s
+
+            def inject(s):      # noqa
+                for j in s.loop.jobs:
+                    j.held = False
+
+            def script_of(s):   # noqa
+                return [s.x_last_event, 'tick', 'tick']
         found = slicedsys.enumerate_points(make, script_of, inject, judge, res,
                                            f'{case["pair"]}/{evname}', closing_ticks=10,
                                            only_k=case.get('k'), after=after)
@@ -232,6 +278,9 @@ def cases_for(tier):
                 cases.append(dict(pair=pair, event=ev, bound=b, shard=[i, n]))
     for pair, ev in ((0, 3), (0, 4), (0, 5), (0, 6), (0, 8), (1, 4), (2, 9)):
         cases.append(dict(pair=pair, event=ev, sliced=True))
+        cases.append(dict(pair=pair, event=ev, sliced=True, paused=True))
+        if 't4' in S0S1[pair][1]:
+            cases.append(dict(pair=pair, event=ev, sliced=True, paused=True, late='t4'))
     return cases
 
 
